@@ -577,12 +577,20 @@ OPICS_MENU = ([[1, 1.0]], [[2, 1.0]], [[1, -1.0]], [[0, 1.0]], [[1, 2.0]], [[1, 
               [[1, 1.0], [1, 1.0]], [[2, 1.0], [1, 0.5], [2, -1.0]])      # repeated ids inside one operator sum (accumulate / cancel)
 
 
-def rand_layered_graph(rng, length, wmax, maxpar=2, dangling=False, menu_size=None, charges=(0, 1), pdens=None):
+# operator sums that differ only by a coefficient perturbation far below np.isclose's tolerances (exactly representable:
+# sums of a few of them are exact in binary floating point, the symbolic oracle works with Fractions)
+NEAR_MENUS = (([[1, 1.0]], [[1, 1.0 + 2.0 ** -30]]), ([[2, 2.0 ** -40]], [[2, 3 * 2.0 ** -40]]),
+              ([[1, 0.5], [2, 0.5]], [[1, 0.5], [2, 0.5 + 2.0 ** -32]]))
+
+
+def rand_layered_graph(rng, length, wmax, maxpar=2, dangling=False, menu_size=None, charges=(0, 1), pdens=None, near=None):
     """random small consistent layered graph descriptor: canonical ids (nodes numbered layer by layer from 0,
     edges from 0), every node on a path between the terminals unless dangling=True"""
     widths = [1] + [int(rng.integers(1, wmax + 1)) for _ in range(length - 1)] + [1]
     k = int(rng.integers(2, 5)) if menu_size is None else menu_size
     menu = [OPICS_MENU[i] for i in rng.choice(len(OPICS_MENU), size=k, replace=False)]
+    if near is not None:
+        menu = list(NEAR_MENUS[near % len(NEAR_MENUS)]) + menu[:max(0, k - 2)]
     layers = []
     nid = 0
     nodes = []
